@@ -209,6 +209,7 @@ class C11(Prop):
             mode = rng.choice(["fast", "fast", "legacy", "single_pass"])
         return {"decl": d, "raw_decl": raw_decl, "regions": regions, "mode": mode, "probes": probes, "order": order,
                 "noscan_shape": noscan, "firstpass_shape": firstpass, "allfirst_shape": allfirst,
+                "nostrings": allfirst and rng.chance(1, 2),      # the scanner has no string at all
                 "profile": rng.choice(["speed", "memory"]), "params": {}}
 
     def generate(self, ctx, rng, n):
@@ -233,6 +234,8 @@ class C11(Prop):
                                     "reads-before-strings" if fp_shape else "needs-strings"))
             rule_r = "rule r { strings: %s condition: %s } " % (decl, "true or $a" if ns_shape else "#a >= 0")
             probes_src = " ".join(probe_rule(i, pr, decl) for i, pr in enumerate(c["probes"]))
+            if c.get("nostrings"):
+                rule_r = ""
             src = 'import "hash" import "console" ' + (probes_src + " " + rule_r if fp_shape else rule_r + probes_src)
             frag.append({"rules": [{"ns": None, "src": src}], "console": True, "profile": c.get("profile", "speed"),
                          "params": p, "input": {"regions": c["regions"]}})
